@@ -539,6 +539,9 @@ fn check_node(p: SddPtr, w: &mut Walk, infos: &[VInfo], compress: bool, fails: &
 }
 
 pub fn run(case: &str, st: &mut Stats) -> Outcome {
+    if std::env::var("C03_DUMP").is_ok() {
+        eprintln!("CASE {case}");
+    }
     let t = toks(case);
     let compress = t[0] == "1";
     let cap: usize = t[1].parse().unwrap();
